@@ -779,4 +779,250 @@ theorem replaceLast_empty {s : St D} {b : String} {m : Meta} (_h : Inv s)
   have hl : lookup s b = some (m, []) := hb
   unfold replaceLast; rw [hl]; rfl
 
+/-! ## `insert_many` -/
+
+theorem onEvents_comp (v : View D) (b : String) (f g : List (Ev D) → List (Ev D)) :
+    Spec.onEvents (Spec.onEvents v b f) b g = Spec.onEvents v b (fun es => g (f es)) := by
+  cases hv : v b with
+  | none =>
+    have : Spec.onEvents v b f = v := by unfold Spec.onEvents; rw [hv]
+    rw [this]; unfold Spec.onEvents; rw [hv]
+  | some p =>
+    obtain ⟨m, es⟩ := p
+    have h1 : Spec.onEvents v b f = Spec.setB v b (some (m, f es)) := by
+      unfold Spec.onEvents; rw [hv]
+    have h2 : Spec.onEvents v b (fun es => g (f es)) = Spec.setB v b (some (m, g (f es))) := by
+      unfold Spec.onEvents; rw [hv]
+    rw [h1, h2]
+    unfold Spec.onEvents
+    have h3 : Spec.setB v b (some (m, f es)) b = some (m, f es) := by simp [Spec.setB]
+    rw [h3]
+    funext b'
+    by_cases hb : b' = b <;> simp [Spec.setB, hb]
+
+theorem onEvents_congr (v : View D) (b : String) {f g : List (Ev D) → List (Ev D)}
+    (h : ∀ m es, v b = some (m, es) → f es = g es) : Spec.onEvents v b f = Spec.onEvents v b g := by
+  unfold Spec.onEvents
+  cases hv : v b with
+  | none => rfl
+  | some p => obtain ⟨m, es⟩ := p; simp only; rw [h m es hv]
+
+theorem ids_onEvents (v : View D) (b : String) (f : List (Ev D) → List (Ev D)) :
+    Spec.ids (Spec.onEvents v b f) b =
+      match v b with
+      | some (_, es) => (f es).filterMap (·.id)
+      | none => [] := by
+  unfold Spec.ids Spec.onEvents
+  cases hv : v b with
+  | none => simp [hv]
+  | some p => simp [Spec.setB]
+
+theorem ids_replaceId (v : View D) (b : String) (i : Int) (e : Ev D) :
+    Spec.ids (Spec.replaceId v b i e) b = Spec.ids v b := by
+  unfold Spec.replaceId
+  rw [ids_onEvents]
+  unfold Spec.ids
+  cases v b with
+  | none => rfl
+  | some p => exact replaceIn_ids p.2 i e
+
+theorem mem_ids_insert {v : View D} {b : String} (hb : (v b).isSome) (j : Int) (e : Ev D)
+    (i : Int) : i ∈ Spec.ids (Spec.insert v b j e) b ↔ i ∈ Spec.ids v b ∨ i = j := by
+  unfold Spec.insert
+  rw [ids_onEvents]
+  unfold Spec.ids
+  cases hv : v b with
+  | none => rw [hv] at hb; cases hb
+  | some p => simp [List.filterMap_append, eq_comm]
+
+/-- an insert commutes with a replace of another id -/
+theorem replaceId_insert (v : View D) (b : String) {i j : Int} (hij : i ≠ j) (e x : Ev D) :
+    Spec.replaceId (Spec.insert v b j x) b i e = Spec.insert (Spec.replaceId v b i e) b j x := by
+  unfold Spec.replaceId Spec.insert
+  rw [onEvents_comp, onEvents_comp]
+  apply onEvents_congr
+  intro m es _
+  have : ¬ j = i := fun h => hij h.symm
+  simp [this]
+
+/-- the interleaved run of `insert_many` on the list model: an event carrying an id rewrites that
+    id, an event without id is appended under the next id of `js` -/
+def seqFold (b : String) : List (Ev D) → List Int → View D → View D
+  | [], _, v => v
+  | e :: es, js, v =>
+    match e.id with
+    | some i => seqFold b es js (Spec.replaceId v b i e)
+    | none =>
+      match js with
+      | j :: js => seqFold b es js (Spec.insert v b j e)
+      | [] => v
+
+theorem filter_none_cons_some {e : Ev D} {i : Int} (he : e.id = some i) (es : List (Ev D)) :
+    (e :: es).filter (·.id.isNone) = es.filter (·.id.isNone) := by
+  simp [he]
+
+theorem filter_some_cons_some {e : Ev D} {i : Int} (he : e.id = some i) (es : List (Ev D)) :
+    (e :: es).filter (·.id.isSome) = e :: es.filter (·.id.isSome) := by
+  simp [he]
+
+theorem filter_none_cons_none {e : Ev D} (he : e.id = none) (es : List (Ev D)) :
+    (e :: es).filter (·.id.isNone) = e :: es.filter (·.id.isNone) := by
+  simp [he]
+
+theorem filter_some_cons_none {e : Ev D} (he : e.id = none) (es : List (Ev D)) :
+    (e :: es).filter (·.id.isSome) = es.filter (·.id.isSome) := by
+  simp [he]
+
+theorem insertMany_cons {s s' : St D} {b : String} {e : Ev D} {es : List (Ev D)}
+    (h : insertMany s b (e :: es) = .ok s') :
+    ∃ s1 oi, insertOne s b e = .ok (s1, oi) ∧ insertMany s1 b es = .ok s' := by
+  unfold insertMany at h
+  cases hi : insertOne s b e with
+  | error x => rw [hi] at h; cases h
+  | ok p => obtain ⟨s1, oi⟩ := p; rw [hi] at h; exact ⟨s1, oi, rfl, h⟩
+
+theorem insertMany_inv {s s' : St D} {b : String} {es : List (Ev D)} (h : Inv s)
+    (hm : insertMany s b es = .ok s') : Inv s' := by
+  induction es generalizing s with
+  | nil => unfold insertMany at hm; cases hm; exact h
+  | cons e es ih =>
+    obtain ⟨s1, oi, h1, h2⟩ := insertMany_cons hm
+    exact ih (insertOne_inv h h1) h2
+
+/-- `insert_many` is the interleaved run on the list model, with ids fresh in THIS bucket
+    (no precondition on the events: ids of other buckets, unknown ids, missing ids, any mix) -/
+theorem insertMany_view_seq {s s' : St D} {b : String} {es : List (Ev D)} (h : Inv s)
+    (hm : insertMany s b es = .ok s') :
+    ∃ ids : List Int, ids.length = (es.filter (·.id.isNone)).length ∧ ids.Nodup ∧
+      (∀ i ∈ ids, i ∉ Spec.ids (view s) b) ∧ view s' = seqFold b es ids (view s) := by
+  induction es generalizing s with
+  | nil =>
+    unfold insertMany at hm; cases hm
+    exact ⟨[], rfl, List.nodup_nil, fun i hi => (by cases hi), rfl⟩
+  | cons e es ih =>
+    obtain ⟨s1, oi, h1, h2⟩ := insertMany_cons hm
+    obtain ⟨ids, hlen, hnd, hfresh, hview⟩ := ih (insertOne_inv h h1) h2
+    cases he : e.id with
+    | some i =>
+      obtain ⟨_, _, hv1⟩ := insertOne_carry_view h he h1
+      refine ⟨ids, ?_, hnd, ?_, ?_⟩
+      · rw [hlen, filter_none_cons_some he]
+      · intro k hk; have := hfresh k hk; rw [hv1, ids_replaceId] at this; exact this
+      · rw [hview, hv1]; simp only [seqFold, he]
+    | none =>
+      obtain ⟨j, _, hsome, hv1, hj⟩ := insertOne_view' h he h1
+      refine ⟨j :: ids, ?_, ?_, ?_, ?_⟩
+      · rw [filter_none_cons_none he, List.length_cons, List.length_cons, hlen]
+      · rw [List.nodup_cons]
+        refine ⟨?_, hnd⟩
+        intro hjm
+        apply hfresh j hjm
+        rw [hv1, mem_ids_insert hsome]; exact Or.inr rfl
+      · intro k hk
+        rcases List.mem_cons.mp hk with hk | hk
+        · rw [hk]; exact hj
+        · intro hmem
+          apply hfresh k hk
+          rw [hv1, mem_ids_insert hsome]; exact Or.inl hmem
+      · rw [hview, hv1]; simp only [seqFold, he]
+
+theorem foldl_replaceId_insert (b : String) (cs : List (Ev D)) (v : View D) (j : Int) (x : Ev D)
+    (hc : ∀ e ∈ cs, e.id.getD 0 ≠ j) :
+    cs.foldl (fun v e => Spec.replaceId v b (e.id.getD 0) e) (Spec.insert v b j x) =
+      Spec.insert (cs.foldl (fun v e => Spec.replaceId v b (e.id.getD 0) e) v) b j x := by
+  induction cs generalizing v with
+  | nil => rfl
+  | cons c cs ih =>
+    simp only [List.foldl_cons]
+    rw [replaceId_insert v b (hc c List.mem_cons_self), ih]
+    intro e he; exact hc e (List.mem_cons_of_mem _ he)
+
+/-- when no carried id is one of the fresh ids, the interleaved run is: all replaces, then all
+    inserts -/
+theorem seqFold_eq_folds (b : String) (es : List (Ev D)) (js : List Int) (v : View D)
+    (hlen : js.length = (es.filter (·.id.isNone)).length)
+    (hc : ∀ e ∈ es, ∀ i, e.id = some i → i ∉ js) :
+    seqFold b es js v =
+      ((es.filter (·.id.isNone)).zip js).foldl (fun v p => Spec.insert v b p.2 p.1)
+        ((es.filter (·.id.isSome)).foldl (fun v e => Spec.replaceId v b (e.id.getD 0) e) v) := by
+  induction es generalizing js v with
+  | nil => simp [seqFold]
+  | cons e es ih =>
+    cases he : e.id with
+    | some i =>
+      rw [filter_none_cons_some he, filter_some_cons_some he]
+      rw [filter_none_cons_some he] at hlen
+      simp only [seqFold, he, List.foldl_cons, Option.getD_some]
+      exact ih js _ hlen (fun e' he' => hc e' (List.mem_cons_of_mem _ he'))
+    | none =>
+      rw [filter_none_cons_none he, filter_some_cons_none he]
+      rw [filter_none_cons_none he] at hlen
+      cases js with
+      | nil => simp at hlen
+      | cons j js =>
+        simp only [List.length_cons, Nat.add_right_cancel_iff] at hlen
+        simp only [seqFold, he, List.zip_cons_cons, List.foldl_cons]
+        rw [ih js _ hlen (fun e' he' i hi hm =>
+          hc e' (List.mem_cons_of_mem _ he') i hi (List.mem_cons_of_mem _ hm))]
+        rw [foldl_replaceId_insert]
+        intro c hcm
+        have hcm' := List.mem_filter.mp hcm
+        cases hci : c.id with
+        | none => rw [hci] at hcm'; simp at hcm'
+        | some i =>
+          simp only [Option.getD_some]
+          intro hij
+          exact hc c (List.mem_cons_of_mem _ hcm'.1) i hci (hij ▸ List.mem_cons_self)
+
+/-- the two-fold form holds as soon as no event of the batch carries one of the ids the batch
+    itself assigns -/
+theorem insertMany_view_cond {s s' : St D} {b : String} {es : List (Ev D)} (h : Inv s)
+    (_hb : (view s b).isSome) (hm : insertMany s b es = .ok s') :
+    ∃ ids : List Int, ids.length = (es.filter (·.id.isNone)).length ∧ ids.Nodup ∧
+      (∀ i ∈ ids, i ∉ Spec.ids (view s) b) ∧
+      ((∀ e ∈ es, ∀ i, e.id = some i → i ∉ ids) →
+        view s' =
+          ((es.filter (·.id.isNone)).zip ids).foldl (fun v p => Spec.insert v b p.2 p.1)
+            ((es.filter (·.id.isSome)).foldl
+              (fun v e => Spec.replaceId v b (e.id.getD 0) e) (view s))) := by
+  obtain ⟨ids, hlen, hnd, hfresh, hview⟩ := insertMany_view_seq h hm
+  exact ⟨ids, hlen, hnd, hfresh, fun hc => by rw [hview, seqFold_eq_folds b es ids _ hlen hc]⟩
+
+/-- the requested statement, under the extra hypothesis that every id carried by an event of the
+    batch is already an id of the bucket (it is FALSE without: `insertMany_view_false`) -/
+theorem insertMany_view_partial {s s' : St D} {b : String} {es : List (Ev D)} (h : Inv s)
+    (hb : (view s b).isSome) (hm : insertMany s b es = .ok s')
+    (hc : ∀ e ∈ es, ∀ i, e.id = some i → i ∈ Spec.ids (view s) b) :
+    ∃ ids : List Int, ids.length = (es.filter (·.id.isNone)).length ∧ ids.Nodup ∧
+      (∀ i ∈ ids, i ∉ Spec.ids (view s) b) ∧
+      view s' =
+        ((es.filter (·.id.isNone)).zip ids).foldl (fun v p => Spec.insert v b p.2 p.1)
+          ((es.filter (·.id.isSome)).foldl
+            (fun v e => Spec.replaceId v b (e.id.getD 0) e) (view s)) := by
+  obtain ⟨ids, hlen, hnd, hfresh, hview⟩ := insertMany_view_cond h hb hm
+  exact ⟨ids, hlen, hnd, hfresh, hview (fun e he i hi hmem => hfresh i hmem (hc e he i hi))⟩
+
+/-- a batch of events without ids: plain appends under fresh ids -/
+theorem insertMany_view_new {s s' : St D} {b : String} {es : List (Ev D)} (h : Inv s)
+    (hb : (view s b).isSome) (hm : insertMany s b es = .ok s')
+    (hc : ∀ e ∈ es, e.id = none) :
+    ∃ ids : List Int, ids.length = es.length ∧ ids.Nodup ∧
+      (∀ i ∈ ids, i ∉ Spec.ids (view s) b) ∧
+      view s' = (es.zip ids).foldl (fun v p => Spec.insert v b p.2 p.1) (view s) := by
+  obtain ⟨ids, hlen, hnd, hfresh, hview⟩ := insertMany_view_cond h hb hm
+  have h1 : es.filter (·.id.isNone) = es :=
+    List.filter_eq_self.mpr (fun e he => by rw [hc e he]; rfl)
+  have h2 : es.filter (·.id.isSome) = [] :=
+    List.filter_eq_nil_iff.mpr (fun e he => by rw [hc e he]; simp)
+  rw [h1] at hlen
+  refine ⟨ids, hlen, hnd, hfresh, ?_⟩
+  have := hview (fun e he i hi => by rw [hc e he] at hi; cases hi)
+  rw [h1, h2] at this
+  exact this
+
+theorem insertMany_missing {s : St D} {b : String} (h : Inv s) (hb : view s b = none)
+    (e : Ev D) (es : List (Ev D)) : insertMany s b (e :: es) = .error .keyError := by
+  unfold insertMany
+  rw [insertOne_missing h hb]
+
 end Aw.Store.Memory
